@@ -1,101 +1,227 @@
-import Tahoe.Immutable.UploadDecisionLemmas
+import Tahoe.Immutable.UploadDecisionMatching
 /-! C06 — a successful immutable upload meets servers-of-happiness (property theorems).
-`hp` is the servers-of-happiness function (its equality with the maximum matching is C08);
-`pre` the pre-existing shares found, `alloc` the buckets allocated (shnum ↦ server),
-`phases` any failure script for the write phases (start, segments, hash trees, UEB),
-`closeEvs` any order of close acknowledgements / failures.  All of them are universally quantified. -/
+
+Model: `Tahoe/Immutable/UploadDecision.lean` (selector's final test, `CHKUploader.set_shareholders`, the
+Encoder's push phase as a state machine over shareholder-loss events with `_remove_shareholder`, the close
+phase with `WriteBucketProxy.close()` = flush + remote close, answers arriving after the error, and
+`_encrypted_done`'s UploadResults).  Helper lemmas: `Tahoe/Immutable/UploadDecision{Rel,Lemmas,Matching}.lean`.
+`pre` = the pre-existing shares found (shnum ↦ servers), `alloc` = the buckets allocated (shnum ↦ server),
+`phases` = any failure script for the write phases (start, segments, hash trees, UEB), `closeEvs` = any
+order of close acknowledgements / remote-close failures / flush failures.  All universally quantified.
+`hp` is an arbitrary happiness function in the bookkeeping theorems; the theorems that speak about
+matchings use `soh` = C08's model of `servers_of_happiness` (`Tahoe.Happiness.serversOfHappiness`, proved
+in C08 to be the maximum matching number), the same function the driver runs.
+`IsMatching E M`: `M` is a list of (server, share) pairs of `E`, no two sharing a server or a share.
+`layoutPairs pre held` = pre-existing pairs ∪ the pairs of the bucket writers `held`.
+
+## Coverage of the statement
+
+| clause of the statement | theorem(s) over the model |
+|---|---|
+| "reports success only if the shares it placed or found form a layout whose servers-of-happiness value is at least the configured threshold" | `success_layout_has_matching` (a matching of ≥ `happy` pairs exists among pre-existing shares ∪ the landlords that survived, each of which is closed and hole-free; no hypothesis beyond `pre` being a dict of sets), `success_is_happy` (same for any happiness function, on the encoder's final servermap) |
+| "every share it reports as placed is complete and readable on the server it names" | `reported_shares_on_named_server` (UploadResults.sharemap and .servermap name exactly the surviving landlords, each on the server that allocated it, close acknowledged, no write to it ever failed; pushed_shares = their number), `placed_shares_complete`; "readable" = the server made it visible on `close` — storage semantics is C22, checked here by the monitor (share bytes on disk = reference bytes) |
+| "If the threshold cannot be met (…failures during transfer), the upload fails with an unhappiness error" | `unhappy_iff_survivors_below_threshold` (error ⇔ no matching of `happy` pairs in pre-existing ∪ surviving landlords at the verdict; success ⇔ one exists), `loss_rechecks_whole_layout` (every loss event re-decides on the whole remaining layout, also when the lost share still has another holder), `unhappy_selection_fails`, `assertion_iff_duplicate_allocation` (the only other exit of the model; DESIGN 8.9, outside the statement) |
+| "(too few servers, full … servers)": whether the selector could have reached a happier layout | not covered here: the query rounds of `Tahoe2ServerSelector` are modelled only through their result (`pre`, `alloc`); optimality of the placement is C07; correspondence + monitor only |
+| "leaves no partial shares visible to readers" | `failure_leaves_no_partial_share` (every bucket writer got `abort`; any share whose remote `close` was or may still be issued — hence the only ones a server can make visible — received every byte, for every order of answers including those after the error); that `abort` deletes an unfinished share and only `close` publishes is C22 |
+| quantifier: "failures injected on any allocate/write/close call, and every response ordering" | all theorems quantify over every `pre`, `alloc`, failure script, close-answer order and late-answer tail; allocate-time faults enter only through (`pre`, `alloc`) — monitor only |
+-/
 namespace Tahoe.C06
 open Tahoe.UploadDecision
+open Tahoe.Happiness (rel relOfServermap IsMatching)
 
-theorem initial_inv (hp : Sharemap → Nat) (happy : Nat) (pre : Sharemap) (alloc : List (Nat × Nat))
-    (h : ¬ hp (mergeTrackers pre alloc) < happy) :
-    Inv hp happy alloc { landlords := alloc, servermap := mergeTrackers pre alloc } :=
-  ⟨by simpa using h, by simp, fun sh hsh => Or.inl hsh, by simp⟩
-
-/-- what is true of every run, success or failure -/
-theorem upload_spec (hp : Sharemap → Nat) (happy : Nat) (pre : Sharemap) (alloc : List (Nat × Nat))
-    (phases : List (List Nat)) (closeEvs : List CloseEv) :
-    let r := upload hp happy pre alloc phases closeEvs
-    (∀ placed sm, r.outcome = .success placed sm →
-        happy ≤ hp sm ∧ sm = r.final.servermap ∧ placed = shnums r.final.landlords ∧
-        (∀ sh ∈ placed, sh ∈ r.final.closed ∧ sh ∉ r.final.failedEver)) ∧
-    (r.outcome = .unhappy → Failed alloc r.final) := by
-  intro r
-  simp only [r, upload]
-  split
-  · -- selector failure: `_failed` aborts every tracker
-    refine ⟨by intro _ _ h; simp at h, fun _ => ⟨?_, by simp [abortAll]⟩⟩
-    intro sh hsh; simp only [abortAll, List.nil_append]; exact hsh
-  · rename_i hsel
-    have h0 := initial_inv hp happy pre alloc hsel
-    have h1 := writePhases_spec hp happy alloc phases _ h0 rfl
-    cases hr1 : (writePhases hp happy { landlords := alloc, servermap := mergeTrackers pre alloc } phases).2 with
-    | true =>
-      have : writePhases hp happy { landlords := alloc, servermap := mergeTrackers pre alloc } phases =
-          ((writePhases hp happy { landlords := alloc, servermap := mergeTrackers pre alloc } phases).1, true) := by rw [← hr1]
-      rw [this]; simp only [if_true]
-      exact ⟨by intro _ _ h; simp at h, fun _ => h1.2 hr1⟩
-    | false =>
-      have : writePhases hp happy { landlords := alloc, servermap := mergeTrackers pre alloc } phases =
-          ((writePhases hp happy { landlords := alloc, servermap := mergeTrackers pre alloc } phases).1, false) := by rw [← hr1]
-      rw [this]; simp only [Bool.false_eq_true, if_false]
-      have h2 := closePhase_spec hp happy alloc closeEvs _ (h1.1 hr1)
-      generalize (writePhases hp happy { landlords := alloc, servermap := mergeTrackers pre alloc } phases).1 = e1 at h2 ⊢
-      cases hr2 : (closePhase hp happy e1 closeEvs).2 with
-      | true =>
-        have : closePhase hp happy e1 closeEvs = ((closePhase hp happy e1 closeEvs).1, true) := by rw [← hr2]
-        rw [this]; simp only [if_true]
-        exact ⟨by intro _ _ h; simp at h, fun _ => h2.2 hr2⟩
-      | false =>
-        have : closePhase hp happy e1 closeEvs = ((closePhase hp happy e1 closeEvs).1, false) := by rw [← hr2]
-        rw [this]; simp only [Bool.false_eq_true, if_false]
-        have hi := h2.1 hr2
-        generalize (closePhase hp happy e1 closeEvs).1 = e2 at hi ⊢
-        refine ⟨?_, by intro h; simp at h⟩
-        intro placed sm hout
-        simp only [Outcome.success.injEq] at hout
-        obtain ⟨hp1, hp2⟩ := hout
-        subst hp1 hp2
-        refine ⟨hi.happyEnough, rfl, rfl, ?_⟩
-        intro sh hsh
-        constructor
-        · simp only [List.mem_append, List.mem_filter]
-          by_cases hc : sh ∈ e2.closed
-          · left; exact hc
-          · right; exact ⟨hsh, by simpa using hc⟩
-        · exact fun hf => hi.failedGone sh hf hsh
-
-/-- **success is happy**: whatever fails during transfer, an upload that reports success ends with a
-layout (shares still held by bucket writers that closed + pre-existing shares) whose
-servers-of-happiness value is at least the threshold. -/
+/-- **success is happy** (any happiness function): whatever fails during transfer, an upload that reports
+success ends with a servermap (pre-existing shares + landlords that closed) whose happiness is at least
+the threshold. -/
 theorem success_is_happy (hp : Sharemap → Nat) (happy : Nat) (pre : Sharemap) (alloc : List (Nat × Nat))
     (phases : List (List Nat)) (closeEvs : List CloseEv) (placed : List Nat) (sm : Sharemap)
     (h : (upload hp happy pre alloc phases closeEvs).outcome = .success placed sm) :
     happy ≤ hp sm ∧ sm = (upload hp happy pre alloc phases closeEvs).final.servermap :=
   let s := (upload_spec hp happy pre alloc phases closeEvs).1 placed sm h
-  ⟨s.1, s.2.1⟩
+  ⟨s.2.2.1 ▸ s.1.happyEnough, s.2.2.1⟩
 
-/-- **placed shares are complete**: every share number reported as placed was closed after every
-write to it succeeded (no write or close to it ever failed). -/
+example : (upload (fun m => m.length) 2 [] [(0, 10), (1, 11), (2, 12)] [[1]] []).outcome =
+    .success [0, 2] [(0, [10]), (2, [12])] := by decide
+
+/-- **the layout of a successful upload has a matching of `happy` pairs**: with the real
+`servers_of_happiness` (C08), success implies that among the pre-existing (server, share) pairs and the
+pairs of the landlords that survived the push — exactly `alloc` minus the shares for which a call failed —
+there are `happy` pairs with distinct servers and distinct shares. -/
+theorem success_layout_has_matching (happy : Nat) (pre : Sharemap) (alloc : List (Nat × Nat))
+    (phases : List (List Nat)) (closeEvs : List CloseEv) (placed : List Nat) (sm : Sharemap)
+    (hw : WFmap pre)
+    (h : (upload soh happy pre alloc phases closeEvs).outcome = .success placed sm) :
+    let r := upload soh happy pre alloc phases closeEvs
+    (∃ M, IsMatching (layoutPairs pre r.final.landlords) M ∧ happy ≤ M.length) ∧
+    r.final.landlords = alloc.filter (fun a => a.1 ∉ r.final.failedEver) ∧
+    placed = shnums r.final.landlords := by
+  intro r
+  obtain ⟨hi, _, _, hpl, _, _, hn⟩ := (upload_spec soh happy pre alloc phases closeEvs).1 placed sm h
+  exact ⟨soh_ge_of_sub _ _ (lay_sub_pairs (hi.st.lay hw hn)) happy hi.happyEnough, hi.st.core.survivors, hpl⟩
+
+/- non-vacuity: the duplicate-holder layout of seeded change C06-a, threshold 2: server 0 already holds
+   shares 0,1,2; servers 1 and 2 get copies of 1 and 2; the writer on server 1 fails; still happy. -/
+example : WFmap [(0, [0]), (1, [0]), (2, [0])] ∧
+    (upload soh 2 [(0, [0]), (1, [0]), (2, [0])] [(1, 1), (2, 2)] [[1]] []).outcome =
+      .success [2] [(0, [0]), (1, [0]), (2, [0, 2])] := by
+  refine ⟨⟨by decide, by decide⟩, by decide +kernel⟩
+
+/-- **placed shares are complete**: every share number reported as placed was closed (acknowledged), is
+among the shares whose remote close was issued, and no write or close to it ever failed. -/
 theorem placed_shares_complete (hp : Sharemap → Nat) (happy : Nat) (pre : Sharemap) (alloc : List (Nat × Nat))
     (phases : List (List Nat)) (closeEvs : List CloseEv) (placed : List Nat) (sm : Sharemap)
     (h : (upload hp happy pre alloc phases closeEvs).outcome = .success placed sm) :
-    ∀ sh ∈ placed, sh ∈ (upload hp happy pre alloc phases closeEvs).final.closed ∧
-                   sh ∉ (upload hp happy pre alloc phases closeEvs).final.failedEver :=
-  ((upload_spec hp happy pre alloc phases closeEvs).1 placed sm h).2.2.2
+    let r := upload hp happy pre alloc phases closeEvs
+    ∀ sh ∈ placed, sh ∈ r.final.closed ∧ sh ∈ r.final.mayBeVisible ∧ sh ∉ r.final.holes ∧
+      sh ∉ r.final.failedEver := by
+  intro r sh hsh
+  obtain ⟨hi, _, _, hpl, hcl, _, _⟩ := (upload_spec hp happy pre alloc phases closeEvs).1 placed sm h
+  have hc := hcl sh hsh
+  have hnf := core_closed_clean hi.st.core sh hc
+  exact ⟨hc, core_closed_mayBeVisible hi.st.core sh hc, fun hh => hnf (hi.st.core.holesFailed sh hh), hnf⟩
 
-/-- **failure leaves nothing partial**: when the upload ends with the unhappiness error, every bucket
-writer it created has received abort() (so an unfinished share is deleted by the server, C22), and the
-only shares it may have made visible are ones whose close() was acknowledged and to which no write
-ever failed, i.e. complete shares. -/
-theorem failure_leaves_nothing_partial (hp : Sharemap → Nat) (happy : Nat) (pre : Sharemap) (alloc : List (Nat × Nat))
+example : (upload (fun m => m.length) 2 [] [(0, 10), (1, 11), (2, 12)] [[1]] [.ok 2]).final.closed = [2, 0] := by
+  decide
+
+/-- **what UploadResults reports is what survived, on the server that holds it**: on success the reported
+sharemap (shnum ↦ servers) and servermap (server ↦ shnums) both contain exactly the pairs of the landlords
+that survived the push; each such pair is a bucket writer allocated on that very server, whose close was
+acknowledged and to which no call ever failed; `pushed_shares` is their number. -/
+theorem reported_shares_on_named_server (hp : Sharemap → Nat) (happy : Nat) (pre : Sharemap)
+    (alloc : List (Nat × Nat)) (phases : List (List Nat)) (closeEvs : List CloseEv) (placed : List Nat)
+    (sm : Sharemap) (h : (upload hp happy pre alloc phases closeEvs).outcome = .success placed sm) :
+    let r := upload hp happy pre alloc phases closeEvs
+    ∃ ur, r.results = some ur ∧
+      (∀ srv sh, (srv, sh) ∈ rel ur.sharemap ↔ (sh, srv) ∈ r.final.landlords) ∧
+      (∀ srv sh, (srv, sh) ∈ relOfServermap ur.servermap ↔ (srv, sh) ∈ rel ur.sharemap) ∧
+      ur.pushed = r.final.landlords.length ∧ ur.preexisting = pre.length ∧
+      (∀ srv sh, (srv, sh) ∈ rel ur.sharemap →
+        (sh, srv) ∈ alloc ∧ sh ∈ r.final.closed ∧ sh ∉ r.final.holes ∧ sh ∉ r.final.failedEver) := by
+  intro r
+  obtain ⟨hi, _, _, hpl, hcl, hres, hn⟩ := (upload_spec hp happy pre alloc phases closeEvs).1 placed sm h
+  have hsub := core_landlords_sub hi.st.core
+  obtain ⟨u1, u2, u3, u4⟩ := uploadResults_spec pre alloc r.final.landlords hn hsub
+  refine ⟨_, hres, ?_, ?_, ?_, ?_, ?_⟩
+  · rw [hpl]; exact u1
+  · rw [hpl]; intro srv sh; rw [u1, u2]
+  · rw [hpl]; exact u3
+  · rw [hpl]; exact u4
+  · intro srv sh hm
+    rw [hpl] at hm
+    have hl := (u1 srv sh).mp hm
+    have hsh : sh ∈ placed := by rw [hpl]; exact List.mem_map.mpr ⟨(sh, srv), hl, rfl⟩
+    have hc := hcl sh hsh
+    have hnf := core_closed_clean hi.st.core sh hc
+    exact ⟨hsub _ hl, hc, fun hh => hnf (hi.st.core.holesFailed sh hh), hnf⟩
+
+/- non-vacuity, and the case seeded change C06-c broke: share 1's writer (server 11) is lost during the
+   push, the upload still succeeds, and the results name shares 0 and 2 only. -/
+example : (upload (fun m => m.length) 2 [] [(0, 10), (1, 11), (2, 12)] [[1]] []).results =
+    some { sharemap := [(0, [10]), (2, [12])], servermap := [(10, [0]), (12, [2])], pushed := 2, preexisting := 0 } := by
+  decide
+
+/-- **every loss re-decides on the whole remaining layout** (the push phase as a state machine): in any
+state reached by the model (`St`), after the loss of the bucket writer of share `sh`, the error is raised
+exactly when the pre-existing pairs and the landlords left contain no matching of `happy` pairs —
+whether or not another server still holds a copy of `sh`. -/
+theorem loss_rechecks_whole_layout (happy : Nat) (pre : Sharemap) (alloc : List (Nat × Nat)) (e : Enc)
+    (sh : Nat) (k : FailKind) (hst : St pre alloc e) (hw : WFmap pre) (hn : (shnums alloc).Nodup)
+    (hdis : ∀ a ∈ alloc, (a.2, a.1) ∉ rel pre) (hnc : sh ∉ e.closed) (hk : k = .write → sh ∉ e.closeCalled) :
+    ((removeShareholder soh happy e sh k).2 = true ↔
+      ∀ M, IsMatching (layoutPairs pre (removeShareholder soh happy e sh k).1.landlords) M → M.length < happy) ∧
+    (removeShareholder soh happy e sh k).1.landlords = e.landlords.filter (fun l => l.1 != sh) := by
+  have hst1 := st_drop pre alloc e sh k hst hnc hk
+  constructor
+  · have hiff := soh_lt_iff _ _ (lay_eq_pairs (hst1.lay hw hn) hdis) happy
+    simp only [removeShareholder, decide_eq_true_eq]
+    exact hiff
+  · simp only [removeShareholder, dropShareholder]
+    cases hl : e.landlords.lookup sh with
+    | some p => rfl
+    | none =>
+      simp only
+      refine (List.filter_eq_self.mpr ?_).symm
+      intro a ha
+      have : a.1 ≠ sh := fun hh => lookup_none_not_mem _ _ hl (List.mem_map.mpr ⟨a, ha, hh⟩)
+      simpa using this
+
+/- non-vacuity = the scenario of seeded change C06-a: server 0 holds shares 0,1,2, servers 1 and 2 hold
+   copies of 1 and 2, threshold 3; server 1's writer fails: share 1 is still on server 0, yet the error is raised. -/
+example :
+    let e0 : Enc := ⟨[(1, 1), (2, 2)], mergeTrackers [(0, [0]), (1, [0]), (2, [0])] [(1, 1), (2, 2)], [], [], [], [], [], []⟩
+    (removeShareholder soh 3 e0 1 .write).2 = true ∧
+    St [(0, [0]), (1, [0]), (2, [0])] [(1, 1), (2, 2)] e0 ∧
+    (∀ a ∈ [(1, 1), (2, 2)], (a.2, a.1) ∉ rel [(0, [0]), (1, [0]), (2, [0])]) :=
+  ⟨by decide +kernel, st_initial _ _, by decide⟩
+
+/-- **unhappiness error iff the surviving set cannot meet the threshold**: for dict inputs in which no
+server was allocated a share it already reported, the upload ends with UploadUnhappinessError exactly when,
+at the verdict, the pre-existing pairs together with the landlords that survived (= `alloc` minus the shares
+with a failed call) contain no `happy` pairs with distinct servers and distinct shares; otherwise it succeeds. -/
+theorem unhappy_iff_survivors_below_threshold (happy : Nat) (pre : Sharemap) (alloc : List (Nat × Nat))
     (phases : List (List Nat)) (closeEvs : List CloseEv)
+    (hw : WFmap pre) (hn : (shnums alloc).Nodup) (hdis : ∀ a ∈ alloc, (a.2, a.1) ∉ rel pre) :
+    let r := upload soh happy pre alloc phases closeEvs
+    (r.outcome = .unhappy ↔ ∀ M, IsMatching (layoutPairs pre r.verdict.landlords) M → M.length < happy) ∧
+    ((∃ placed sm, r.outcome = .success placed sm) ↔
+      ∃ M, IsMatching (layoutPairs pre r.verdict.landlords) M ∧ happy ≤ M.length) ∧
+    r.verdict.landlords = alloc.filter (fun a => a.1 ∉ r.verdict.failedEver) := by
+  intro r
+  obtain ⟨hs, hu, ha⟩ := upload_spec soh happy pre alloc phases closeEvs
+  have key : (r.outcome = .unhappy ∧ soh r.verdict.servermap < happy ∧ St pre alloc r.verdict) ∨
+      ((∃ placed sm, r.outcome = .success placed sm) ∧ happy ≤ soh r.verdict.servermap ∧ St pre alloc r.verdict) := by
+    cases hout : r.outcome with
+    | unhappy => exact Or.inl ⟨rfl, (hu hout).1.unhappyNow, (hu hout).1.st⟩
+    | assertion => exact absurd hn (ha hout).1
+    | success placed sm =>
+      obtain ⟨hi, hv, _⟩ := hs placed sm hout
+      exact Or.inr ⟨⟨placed, sm, rfl⟩, hv ▸ hi.happyEnough, hv ▸ hi.st⟩
+  rcases key with ⟨ho, hlt, hst⟩ | ⟨⟨placed, sm, ho⟩, hge, hst⟩
+  · have hE := lay_eq_pairs (hst.lay hw hn) hdis
+    refine ⟨⟨fun _ => (soh_lt_iff _ _ hE happy).mp hlt, fun _ => ho⟩, ⟨?_, ?_⟩, hst.core.survivors⟩
+    · rintro ⟨p, s, hh⟩; rw [ho] at hh; cases hh
+    · intro hM; have := (soh_ge_iff _ _ hE happy).mpr hM; omega
+  · have hE := lay_eq_pairs (hst.lay hw hn) hdis
+    refine ⟨⟨?_, ?_⟩, ⟨fun _ => (soh_ge_iff _ _ hE happy).mp hge, fun _ => ⟨placed, sm, ho⟩⟩, hst.core.survivors⟩
+    · intro hh; rw [ho] at hh; cases hh
+    · intro hM; have := (soh_lt_iff _ _ hE happy).mpr hM; omega
+
+/- non-vacuity: both verdicts on the C06-a layout (threshold 3: unhappy; threshold 2: success) -/
+example : WFmap [(0, [0]), (1, [0]), (2, [0])] ∧ (shnums [(1, 1), (2, 2)]).Nodup ∧
+    (∀ a ∈ [(1, 1), (2, 2)], (a.2, a.1) ∉ rel [(0, [0]), (1, [0]), (2, [0])]) ∧
+    (upload soh 3 [(0, [0]), (1, [0]), (2, [0])] [(1, 1), (2, 2)] [] [.flushFail 1]).outcome = .unhappy :=
+  ⟨⟨by decide, by decide⟩, by decide, by decide, by decide +kernel⟩
+/- what the hypothesis `hdis` excludes: a server that is allocated a share it already reported. The code
+   (and the model) then removes the pair from the servermap when the writer is lost although the old copy
+   is still there: it under-counts, which errs on the safe side (`success_layout_has_matching` needs no `hdis`). -/
+example : (upload soh 1 [(0, [5])] [(0, 5)] [[0]] []).outcome = .unhappy := by decide +kernel
+
+/-- **failure leaves no partial share visible**: when the upload ends with the unhappiness error — at
+selection, in a write phase or in the close phase, and after any answers that were still outstanding —
+every bucket writer it created has received abort() (an unfinished share is deleted by the server, C22),
+and every share a server can have made visible (its remote close was, or may still be, issued) had every
+byte acknowledged; the acknowledged closes are among them. -/
+theorem failure_leaves_no_partial_share (hp : Sharemap → Nat) (happy : Nat) (pre : Sharemap)
+    (alloc : List (Nat × Nat)) (phases : List (List Nat)) (closeEvs : List CloseEv)
     (h : (upload hp happy pre alloc phases closeEvs).outcome = .unhappy) :
-    (∀ sh ∈ shnums alloc, sh ∈ (upload hp happy pre alloc phases closeEvs).final.aborted) ∧
-    (∀ sh ∈ (upload hp happy pre alloc phases closeEvs).final.closed,
-        sh ∉ (upload hp happy pre alloc phases closeEvs).final.failedEver) :=
-  let f := (upload_spec hp happy pre alloc phases closeEvs).2 h
-  ⟨f.allAborted, f.closedClean⟩
+    let r := upload hp happy pre alloc phases closeEvs
+    (∀ sh ∈ shnums alloc, sh ∈ r.final.aborted) ∧
+    (∀ sh ∈ r.final.mayBeVisible, sh ∉ r.final.holes) ∧
+    (∀ sh ∈ r.final.closed, sh ∈ r.final.mayBeVisible ∧ sh ∉ r.final.failedEver) := by
+  intro r
+  obtain ⟨_, hst, hab⟩ := (upload_spec hp happy pre alloc phases closeEvs).2.1 h
+  refine ⟨hab, ?_, fun sh hc => ⟨core_closed_mayBeVisible hst.core sh hc, core_closed_clean hst.core sh hc⟩⟩
+  intro sh hv
+  simp only [Enc.mayBeVisible, List.mem_filter, decide_eq_true_eq] at hv
+  exact hst.core.visClean sh hv.1 hv.2
+
+/- non-vacuity: four shares, threshold 2; the remote close of 0, 2, 3 fails (error at the third), then the
+   flush of share 1 fails late: it has a hole, is aborted, and is not among the possibly visible ones. -/
+example : (upload (fun m => m.length) 2 [] [(0, 1), (1, 2), (2, 3), (3, 4)] []
+      [.fail 0, .fail 2, .fail 3, .flushFail 1]).outcome = .unhappy ∧
+    (upload (fun m => m.length) 2 [] [(0, 1), (1, 2), (2, 3), (3, 4)] []
+      [.fail 0, .fail 2, .fail 3, .flushFail 1]).final.holes = [1] ∧
+    (upload (fun m => m.length) 2 [] [(0, 1), (1, 2), (2, 3), (3, 4)] []
+      [.fail 0, .fail 2, .fail 3, .flushFail 1]).final.mayBeVisible = [0, 2, 3] := by decide
 
 /-- the selector refuses outright when the merged layout is not happy -/
 theorem unhappy_selection_fails (hp : Sharemap → Nat) (happy : Nat) (pre : Sharemap) (alloc : List (Nat × Nat))
@@ -103,10 +229,24 @@ theorem unhappy_selection_fails (hp : Sharemap → Nat) (happy : Nat) (pre : Sha
     (upload hp happy pre alloc phases closeEvs).outcome = .unhappy := by
   simp [upload, h]
 
-/- non-vacuity: with `hp` = number of distinct share numbers (a stand-in), 3 shares on 3 servers,
-   happy = 2: one failure keeps the upload successful, two failures make it unhappy. -/
-example : (upload (fun m => m.length) 2 [] [(0, 10), (1, 11), (2, 12)] [[1]] []).outcome =
-    .success [0, 2] [(0, [10]), (2, [12])] := by decide
 example : (upload (fun m => m.length) 2 [] [(0, 10), (1, 11), (2, 12)] [[1], [0]] []).outcome = .unhappy := by decide
+
+/-- the only exit that is neither success nor the unhappiness error: `CHKUploader.set_shareholders`
+asserts when a happy selection allocated one share number on two servers (DESIGN 8.9; the statement is
+silent about it). Nothing has been written or aborted at that point. -/
+theorem assertion_iff_duplicate_allocation (hp : Sharemap → Nat) (happy : Nat) (pre : Sharemap)
+    (alloc : List (Nat × Nat)) (phases : List (List Nat)) (closeEvs : List CloseEv) :
+    (upload hp happy pre alloc phases closeEvs).outcome = .assertion ↔
+      happy ≤ hp (mergeTrackers pre alloc) ∧ ¬ (shnums alloc).Nodup := by
+  constructor
+  · intro h
+    obtain ⟨h1, h2, _⟩ := (upload_spec hp happy pre alloc phases closeEvs).2.2 h
+    exact ⟨h2, h1⟩
+  · rintro ⟨h1, h2⟩
+    have h1' : ¬ hp (mergeTrackers pre alloc) < happy := by omega
+    have h2' : ¬ (List.map (fun x => x.1) alloc).Nodup := by simpa [shnums] using h2
+    simp [upload, h1', h2']
+
+example : (upload (fun m => m.length) 1 [] [(1, 2), (1, 3)] [] []).outcome = .assertion := by decide
 
 end Tahoe.C06
